@@ -15,6 +15,7 @@ package main
 //	      digest of another Heightmaps entry.YPos.#BlockEntities.#Heightmaps — what ChunkToSave must leave alone)
 //	chunk.life secs= ypos= mdl= reg= nb= air= from=<hist|hand> hist= rounds= | S=<hand-built sections> post=<ops>
 //	     => ok L=<loaded sections> P=<after post> n= len= wd= rn= left= Q=<wire read-back> T=<saved and loaded again>
+//	chunk.reread secs= reads=<k> mdl= reg= nb= air= h1= … hk= post= => ok R=<after the last read> P=<after post> n= len= wd= rn= left= Q=<read back>
 //	light.rt used= extra= sky= blk= sl= bl= => ok n= len= wd= rn= left= sky= blk= sl= bl=
 //	save.hm secs= k= longs= => ok | err | panic…           (ChunkFromSave with height map k of that many longs; -1 = absent)
 //	chunk.rd secs= used= <hex> | section.rd used= <hex> | be.rd used= <hex> | light.rd used= <hex>
@@ -617,6 +618,56 @@ func c13Life(c *Ctx, args []string) {
 	c.Emit("chunk.life", args, obs)
 }
 
+// ---------- one destination chunk receives several chunks in a row, then is edited ----------
+
+// c13Reread: `reads=<k>` chunks (EmptyChunk + h1, h2, …) are written and read one after the other into the SAME
+// destination; then the `post` history edits the destination; then it is written and read into a fresh chunk.
+func c13Reread(c *Ctx, args []string) {
+	m := c13ParseArgs(args)
+	e := m.env()
+	var obs string
+	cls := c13GuardT(30*time.Second, func() {
+		dst := level.EmptyChunk(e.secs)
+		reads := c13Atoi(m["reads"])
+		for k := 1; k <= reads; k++ {
+			src := level.EmptyChunk(e.secs)
+			c13Apply(src, e, m["h"+strconv.Itoa(k)])
+			var buf bytes.Buffer
+			if _, err := src.WriteTo(&buf); err != nil {
+				obs = "werr"
+				return
+			}
+			r := bytes.NewReader(buf.Bytes())
+			if _, err := dst.ReadFrom(r); err != nil || r.Len() != 0 {
+				obs = fmt.Sprintf("err@read%d left=%d", k, r.Len())
+				return
+			}
+		}
+		rObs := c13SecsObs(dst, false, false)
+		c13Apply(dst, e, m["post"])
+		p := c13SecsObs(dst, false, false)
+		var buf bytes.Buffer
+		n, err := dst.WriteTo(&buf)
+		if err != nil {
+			obs = "werr"
+			return
+		}
+		again := level.EmptyChunk(e.secs)
+		r := bytes.NewReader(buf.Bytes())
+		rn, err := again.ReadFrom(r)
+		if err != nil {
+			obs = fmt.Sprintf("ok R=%s P=%s rerr left=%d", rObs, p, r.Len())
+			return
+		}
+		obs = fmt.Sprintf("ok R=%s P=%s n=%d len=%d wd=%s rn=%d left=%d Q=%s", rObs, p, n, buf.Len(), c13DigBytes(buf.Bytes()), rn, r.Len(),
+			c13SecsObs(again, false, false))
+	})
+	if cls != "" {
+		obs = cls
+	}
+	c.Emit("chunk.reread", args, obs)
+}
+
 // ---------- the light block ----------
 
 func c13ParseArrays(s string) []pk.ByteArray {
@@ -1149,6 +1200,8 @@ func replayC13(c *Ctx, op string, args []string) bool {
 		c13Save(c, args)
 	case "chunk.life":
 		c13Life(c, args)
+	case "chunk.reread":
+		c13Reread(c, args)
 	case "light.rt":
 		c13LightRT(c, args)
 	case "save.hm":
@@ -1648,6 +1701,81 @@ func (c *Ctx) c13LifeCase(i int, air []int, mdl bool) {
 	c13Life(c, append(common, "from=hand", "S="+strings.Join(specs, "/"), "post="+post()))
 }
 
+// c13RereadCase: the same destination chunk receives 2..4 chunks whose sections stay in the SAME palette class
+// (single, 1..4 bits, 5, 6, 7, 8 bits, direct; biomes: single, 1, 2, 3 bits, direct) but hold different state sets;
+// then SetBlock / biome Set calls draw deliberately from the states of an EARLIER content that the last one lacks,
+// from the last content, from new states and from the airs.
+func (c *Ctx) c13RereadCase(i int, air []int, mdl bool) {
+	r := c.R
+	reg := len(block.StateList)
+	secs := 1 + r.Intn(3)
+	e := c13Env{secs: secs, reg: reg, nb: 63}
+	reads := 2 + r.Intn(3)
+	stateCls := [][2]int{{1, 1}, {2, 16}, {17, 32}, {33, 64}, {65, 128}, {129, 256}, {257, 400}}
+	biomeCls := [][2]int{{1, 1}, {2, 2}, {3, 4}, {5, 8}, {9, 20}}
+	type content struct{ v0, d, b0, db int }
+	contents := make([][]content, reads) // per read, per section
+	sc := make([]int, secs)
+	bc := make([]int, secs)
+	for s := range sc {
+		sc[s] = (i + s) % len(stateCls)
+		if mdl && sc[s] == 6 {
+			sc[s] = 2 + r.Intn(4) // the byte-level model stays small; the class the seeded defect lives in is 17..256
+		}
+		bc[s] = r.Intn(len(biomeCls))
+	}
+	hists := make([]string, reads)
+	for k := 0; k < reads; k++ {
+		g := &c13Gen{c: c, e: e, air: air}
+		contents[k] = make([]content, secs)
+		for s := 0; s < secs; s++ {
+			lo, hi := stateCls[sc[s]][0], stateCls[sc[s]][1]
+			d := lo + r.Intn(hi-lo+1)
+			v0 := 1 + (k*3001+s*977+r.Intn(500))%(reg-1000)
+			lob, hib := biomeCls[bc[s]][0], biomeCls[bc[s]][1]
+			db := lob + r.Intn(hib-lob+1)
+			b0 := (k*13 + s*5 + r.Intn(7)) % 63
+			contents[k][s] = content{v0, d, b0, db}
+			if r.Intn(3) == 0 { // every cell non-air: the default air leaves the section, the palette keeps it
+				g.add("fb:%d:0:4096:%d:0", s, v0)
+			}
+			if d > 1 {
+				g.add("fb:%d:%d:%d:%d:1", s, r.Intn(4096), d-1, v0)
+			}
+			if db > 1 {
+				g.add("fbi:%d:%d:%d:%d:1", s, r.Intn(64), db-1, b0)
+			}
+		}
+		hists[k] = g.hist()
+	}
+	pg := &c13Gen{c: c, e: e, air: air}
+	last := contents[reads-1]
+	for n := 4 + r.Intn(12); n > 0; n-- {
+		s := r.Intn(secs)
+		earlier := contents[r.Intn(reads-1)][s]
+		switch r.Intn(6) {
+		case 0, 1, 2: // a state of an earlier content
+			pg.add("sb:%d:%d:%d", s, r.Intn(4096), (earlier.v0+r.Intn(earlier.d))%reg)
+		case 3: // a state of the last content
+			pg.add("sb:%d:%d:%d", s, r.Intn(4096), (last[s].v0+r.Intn(last[s].d))%reg)
+		case 4:
+			pg.add("sb:%d:%d:%d", s, r.Intn(4096), []int{0, air[r.Intn(len(air))], r.Intn(reg)}[r.Intn(3)])
+		default: // biomes: earlier / new
+			pg.add("bi:%d:%d:%d", s, r.Intn(64), []int{(earlier.b0 + r.Intn(earlier.db)) % 63, r.Intn(63)}[r.Intn(2)])
+		}
+	}
+	m := "0"
+	if mdl {
+		m = "1"
+	}
+	args := []string{"secs=" + strconv.Itoa(secs), "reads=" + strconv.Itoa(reads), "mdl=" + m,
+		"reg=" + strconv.Itoa(reg), "nb=63", "air=" + c13AirArg(air)}
+	for k, h := range hists {
+		args = append(args, "h"+strconv.Itoa(k+1)+"="+h)
+	}
+	c13Reread(c, append(args, "post="+pg.hist()))
+}
+
 func (c *Ctx) c13LightCase() {
 	r := c.R
 	mask := func() string {
@@ -1841,6 +1969,11 @@ func genC13(c *Ctx) {
 		}
 		c.c13SaveCase(secs, cls, air, mdl)
 		cls++
+	}
+
+	// one destination, several reads in the same palette classes with different states, then edits
+	for i := 0; i < c.N(140, 3000); i++ {
+		c.c13RereadCase(i, air, i%14 == 3)
 	}
 
 	// life after loading: counters of loaded sections, then SetBlock, wire and save again
